@@ -70,7 +70,7 @@ Proof. exact unchanged_b_sound. Qed.
 Print Assumptions C20_unchanged_decidable.
 
 (* link of the two per-case verdicts: wherever the implementation agrees with the model, the property holds on
-   that case.  For `site` cases "the model" is the generated program of Gen/C20.v.  Call cases of the genotype
+   that case.  For `site` cases "the model" is the second extraction (translator code path), required safe.  Call cases of the genotype
    encodings (site 14) are excluded: their model is the executable genotype_prog(_fixed), see below. *)
 Theorem C20_model_agrees_implies_property_partial : forall c,
   (Z.eqb (k_kind c) 0 = true -> k_site c <> 14%Z) -> model_ok c = true -> spec_ok c = true.
@@ -135,6 +135,6 @@ Example C20_nonvacuous_link :
   let c := {| k_kind := 0; k_site := 14; k_cow := true; k_target := 0;
               k_before := [[48; 47; 49; 10]%Z]; k_after := [[48; 47; 49; 10]%Z];
               k_log_before := [1%Z]; k_log_after := [1%Z]; k_res1 := [7%Z]; k_res2 := [7%Z];
-              k_w_ref := []; k_w_got := []; k_np := 0%Z; k_prog := []; k_flags := [] |} in
+              k_w_ref := []; k_w_got := []; k_np := 0%Z; k_prog := []; k_prog2 := []; k_flags := [] |} in
   model_ok c = true /\ spec_ok c = true.
 Proof. vm_compute. split; reflexivity. Qed.
